@@ -594,6 +594,7 @@ class Printer:
             self.t("struct", name, "{")
             for ty, fn in fields:
                 self.t(*type_tokens(ty))
+                self.mark("decl", fn)
                 self.t(fn, ";")
             self.t("}")
         for ty, nm in p.globals:
